@@ -102,6 +102,9 @@ def check_repetition(acc, prop, reps=REPS, only=None):
                 break
 
 
+_ALIVE = []
+
+
 def pollute(n=3000):
     """Make the process a used one (deterministic)."""
     from curtsies.formatstring import FmtStr, fmtstr, linesplit
@@ -131,8 +134,14 @@ def pollute(n=3000):
         g.copy_with_new_atts(bold=bool(i % 2))
         dict(g.shared_atts)
         g == f
-        if i % 50 == 0:
-            keep.append(g)
+        keep.append(g)
+        keep.append(f)
+    # one very long value through the same mill (total characters processed: several hundred thousand)
+    big = fmtstr("lorem ipsum " * 20000, "red") + fmtstr("x" * 1000, "bold")
+    FmtStr.from_str(str(big))
+    big.width, len(big), hash(big)
+    big[1000:200000].upper()
+    _ALIVE.append(keep)  # thousands of FmtStr objects stay alive for the rest of the process
     return len(keep)
 
 
@@ -271,6 +280,15 @@ def chains(prop):
             return f2.new_with_atts_removed(name), [(c, d(a)) for c, a in c2]
         return f2, c2
 
+    def rewrap(k, f, cells):
+        # fmtstr() around the previous result, one more level at every step
+        name, v = ATT_STEPS[k % len(ATT_STEPS)]
+        p, pc = _piece(k)
+        if v is False:
+            return f + p, cells + pc
+        d = lambda a: C.norm_atts(dict(dict(a), **{name: v}))
+        return fmtstr(f + p, **{name: v}), [(c, d(a)) for c, a in cells + pc]
+
     def pad_and_case(k, f, cells):
         p, pc = _piece(k)
         if k % 3 == 0:
@@ -284,7 +302,7 @@ def chains(prop):
     table = {
         "C09": {"append_only": append_only, "splice_mixed": splice_mixed},
         "C06": {"add_right": add_right, "add_left": add_left, "add_and_cut": add_and_cut, "join_chain": join_chain},
-        "C14": {"restyle": restyle},
+        "C14": {"restyle": restyle, "rewrap": rewrap},
         "C01": {"add_right": add_right, "splice_mixed": splice_mixed, "restyle": restyle},
         "C05": {"add_right": add_right, "splice_mixed": splice_mixed, "restyle": restyle},
         "C13": {"append_only": append_only, "add_and_cut": add_and_cut, "restyle": restyle},
